@@ -45,7 +45,7 @@ static int cmpmode;
 static unsigned cmp_calls;
 static int cmp(const void * a, const void * b, void * p)
 {
-    const struct elem * x = a, * y = b; (void)p;
+    const struct elem * x = a, * y = b; h_check_priv(p);
     int s = (x->key > y->key) - (x->key < y->key);
     cmp_calls++;
     if (cmpmode == 1) return x->key - y->key;
@@ -58,7 +58,7 @@ static int vis_ord[MAXV], vis_id[MAXV], vis_n, vis_stop;
 static int vsign = 1;   /* sign of the visitor's non-zero answer (header vsign); the result is printed times vsign */
 static int visit(const void * e, cstl_bintree_visit_order_t ord, void * p)
 {
-    (void)p;
+    h_check_priv(p);
     if (vis_n < MAXV) { vis_ord[vis_n] = (int)ord; vis_id[vis_n] = idof(e); }
     vis_n++;
     return (vis_stop > 0 && vis_n == vis_stop) ? vsign * vis_stop : 0;
@@ -150,8 +150,8 @@ static void run_case(const struct h_case * c)
         if (h_weq(l, 0, "cmpmode")) { cmpmode = a; continue; }
         if (h_weq(l, 0, "vsign")) { vsign = a < 0 ? -1 : 1; continue; }
         if (!started) {
-            if (rb) cstl_rbtree_init(&rt, cmp, NULL, offsetof(struct elem, rn));
-            else cstl_bintree_init(&bt, cmp, NULL, offsetof(struct elem, bn));
+            if (rb) cstl_rbtree_init(&rt, cmp, H_COOKIE, offsetof(struct elem, rn));
+            else cstl_bintree_init(&bt, cmp, H_COOKIE, offsetof(struct elem, bn));
             started = 1;
         }
         if (h_weq(l, 0, "insert") || h_weq(l, 0, "inserth")) {
@@ -191,9 +191,9 @@ static void run_case(const struct h_case * c)
         else if (h_weq(l, 0, "foreach")) {
             int r, dirv = h_weq(l, 1, "rev");
             vis_n = 0; vis_stop = (int)h_int(l, 2);
-            r = rb ? cstl_rbtree_foreach(&rt, visit, NULL,
+            r = rb ? cstl_rbtree_foreach(&rt, visit, H_COOKIE,
                                          dirv ? CSTL_BINTREE_FOREACH_DIR_REV : CSTL_BINTREE_FOREACH_DIR_FWD)
-                   : cstl_bintree_foreach(&bt, visit, NULL,
+                   : cstl_bintree_foreach(&bt, visit, H_COOKIE,
                                           dirv ? CSTL_BINTREE_FOREACH_DIR_REV : CSTL_BINTREE_FOREACH_DIR_FWD);
             printf("ok %d", vsign * r);
             for (k = 0; k < vis_n && k < MAXV; k++) printf(" %d %d", vis_ord[k], vis_id[k]);
